@@ -83,6 +83,11 @@ def main():
             name = os.path.basename(os.path.dirname(p)) if os.path.basename(p) == "patch.diff" else os.path.basename(p)
             sh(["git", "-C", wt, "checkout", "--", "."])
             r = sh(["git", "-C", wt, "apply", p])
+            ported = os.path.join(os.path.dirname(p), "patch-ported.diff")
+            if r.returncode and os.path.basename(p) == "patch.diff" and os.path.exists(ported):
+                # the seeded change was written against an older tree; same break re-diffed by hand against HEAD
+                r = sh(["git", "-C", wt, "apply", ported])
+                name += "(ported)"
             if r.returncode:
                 results.append({"mutant": name, "result": "patch-does-not-apply", "detail": r.stderr[-200:]})
                 print("%-45s PATCH DOES NOT APPLY" % name)
